@@ -51,6 +51,12 @@ pub fn simulate(plan: &Plan) -> Outcome {
 
 pub fn simulate_with(plan: &Plan, opts: &SimOpts) -> Outcome {
     let model = model::build(plan);
+    // all TLS randomness of this run (client and server side) comes from the Plan's seed
+    if let Some(t) = &plan.cfg.tls {
+        crate::tlssim::seed_thread_rng(t.seed);
+    } else {
+        crate::tlssim::seed_thread_rng(0);
+    }
     let mut world = World::new(plan, &model);
     world.log_events = opts.log_events;
     let world = Rc::new(RefCell::new(world));
@@ -59,11 +65,6 @@ pub fn simulate_with(plan: &Plan, opts: &SimOpts) -> Outcome {
     } else {
         None
     };
-    if let Some(t) = &plan.cfg.tls {
-        crate::tlssim::seed_thread_rng(t.seed);
-    } else {
-        crate::tlssim::seed_thread_rng(0);
-    }
     panichook::clear();
     let stream = SimStream { w: world.clone() };
     let default_init = plan.cfg.default_on_init;
